@@ -22,14 +22,15 @@ enum { UP_MATCH, UP_ALT, UP_LOST, UP_SPONT, UP_DUP, UP_N };
 static const char *UP_NAME[UP_N] = {"answer", "alt-answer", "answer-lost", "spontaneous", "duplicate"};
 
 static int n_rq(int thorough) { return thorough ? RQ_N : 5; }
-static int n_events(int thorough) { return 2 * n_rq(thorough) + 2 * UP_N + 1; }
+static int n_events(int thorough) { return 2 * n_rq(thorough) + 2 * UP_N + 1 + 4; }   /* + stall(A,1) stall(A,0) stall(B,1) stall(B,0); B = 1.1.0 lies beneath A = 1.0.0 */
 static int g_thorough;
 static const char *evname(int ev) {
 	static char b[4][48]; static int k; char *s = b[k++ & 3];
 	int nr = n_rq(g_thorough);
 	if (ev < 2 * nr) snprintf(s, 48, "send(%s,%s)", ev / nr ? "B" : "A", RQ_NAME[ev % nr]);
 	else if (ev < 2 * nr + 2 * UP_N) { int u = ev - 2 * nr; snprintf(s, 48, "up(%s,%s)", u / UP_N ? "B" : "A", UP_NAME[u % UP_N]); }
-	else snprintf(s, 48, "tick(1s)");
+	else if (ev == 2 * nr + 2 * UP_N) snprintf(s, 48, "tick(1s)");
+	else { int k = ev - (2 * nr + 2 * UP_N + 1); snprintf(s, 48, "stall(%s,%d)", k / 2 ? "B" : "A", k % 2 ? 0 : 1); }
 	return s;
 }
 
@@ -52,7 +53,9 @@ static struct {
 	uint8_t submitted[2][256]; int nsub[2];    /* types submitted in order */
 	int last_ans[2];
 	size_t wire_off;
+	int stall[2];                               /* stall flag reported by A / by B */
 } S;
+static int blocked(int node) { return S.stall[0] || (node == 1 && S.stall[1]); }
 
 static void drain_queues(void) {
 	uint8_t *m;
@@ -78,6 +81,7 @@ static void absorb_wire(void) {
 			res_violation("order: messages to a node are not on the wire in submission order exactly once",
 			              "node %c wire position %d: type %02x seq %d, expected type %02x seq %d", 'A' + node, idx, m->type, m->seq,
 			              idx < S.nsub[node] ? S.submitted[node][idx] : 0, expseq);
+		if (blocked(node)) res_violation("sent-into-stalled-subtree: a message reached the wire although its node or an ancestor reports a stall", "node %c, type %02x", 'A' + node, m->type);
 		rf_on_wire(&S.rf, m, vs_now_us());
 		if (m->type < 128 && rf_resp[m->type].size > 0 && S.npend[node] < 256) S.pend[node][S.npend[node]++] = m->type;
 		int sum = rf_sum(rn->eager, rn->n_eager);
@@ -89,7 +93,7 @@ static void absorb_wire(void) {
 
 static void check_stranded(int node, const char *when) {
 	uint8_t types[8]; int nd = vx_node_deferred(NADDR[node], types, 8);
-	if (nd == 0) return;
+	if (nd == 0 || blocked(node)) return;      /* while the node or an ancestor is stalled, holding back is what is required */
 	rf_node_t *rn = rf_node(&S.rf, NADDR[node]);
 	int size = types[0] < 128 ? rf_resp[types[0]].size : 0;
 	int lazy = rf_sum(rn->lazy, rn->n_lazy), noexp = rf_sum(rn->noexp, rn->n_noexp);
@@ -143,11 +147,20 @@ static int apply_event(int ev, int thorough) {
 		rf_on_uplink(&S.rf, NADDR[node], (uint8_t) type, vs_now_us());
 		absorb_wire();
 		check_stranded(node, "uplink");
-	} else {
+	} else if (ev == 2 * nr + 2 * UP_N) {
 		vs_sleep_us(1000000); hx_quiesce();
 		bidib_flush(); hx_quiesce();
 		rf_expire(&S.rf, vs_now_us());
 		absorb_wire();
+	} else {
+		int k = ev - (2 * nr + 2 * UP_N + 1), node = k / 2, on = k % 2 ? 0 : 1;
+		if (S.stall[node] == on) return 0;
+		uint8_t d = (uint8_t) on; S.stall[node] = on;
+		hx_feed_msg(NADDR[node], 0, MSG_STALL, &d, 1);
+		bidib_flush(); hx_quiesce(); drain_queues();
+		rf_expire(&S.rf, vs_now_us());
+		absorb_wire();
+		if (!on) for (int m2 = 0; m2 < 2; m2++) check_stranded(m2, "unstall");
 	}
 	check_counts();
 	return 1;
@@ -174,7 +187,7 @@ static void c03_child(const void *job, size_t n) {
 	for (int node = 0; node < 2; node++) {
 		o += (size_t) snprintf(dump + o, sizeof dump - o, "P%d[", node);
 		for (int i = 0; i < S.npend[node]; i++) o += (size_t) snprintf(dump + o, sizeof dump - o, "%02x", S.pend[node][i]);
-		o += (size_t) snprintf(dump + o, sizeof dump - o, "]sub%d la%d;", S.nsub[node], S.last_ans[node]);
+		o += (size_t) snprintf(dump + o, sizeof dump - o, "]sub%d la%d st%d;", S.nsub[node], S.last_ans[node], S.stall[node]);
 	}
 	hx_hash_t h; hx_hash_init(&h); hx_hash_add(&h, dump, o);
 	res_printf("S %llx %llx\n", (unsigned long long) h.a, (unsigned long long) h.b);
